@@ -52,14 +52,16 @@ Print Assumptions C34_discovered_names_distinct.
 
 (** The same, said about what the walks report rather than about the result: [raw_discovered tree roots] is the
     concatenation, in argument order, of what discoverRoot reports under each root.  Successful discovery returns all
-    of it (a permutation: nothing dropped or merged) and ALL its names and ALL its sources are pairwise distinct —
+    of it (a permutation: nothing dropped or merged) and ALL its names and ALL its sources — as planPrune keys them:
+    [normalize_source], a final ".git" component dropped, so a working tree and its own git directory are ONE source
+    (repair /repo `fix: zoekt-local-sync: a repository and its own .git directory are one source`) — are pairwise distinct:
     two repositories found under the SAME root are compared exactly like two found under different roots (the
     seen-maps are threaded per entry, not per root). *)
 Theorem C34_discovered_all_and_distinct : forall tree roots specs,
   discover tree roots = Ok specs ->
   Permutation (raw_discovered tree roots) specs /\
   NoDup (map sp_name (raw_discovered tree roots)) /\
-  NoDup (map sp_source (raw_discovered tree roots)).
+  NoDup (map (fun s => normalize_source (sp_source s)) (raw_discovered tree roots)).
 Proof. exact discover_ok_all_distinct. Qed.
 Print Assumptions C34_discovered_all_and_distinct.
 
@@ -77,10 +79,17 @@ Theorem C34_any_name_collision_fails_before_any_op : forall tree roots l1 s1 l2 
 Proof. exact any_name_collision_fails. Qed.
 Print Assumptions C34_any_name_collision_fails_before_any_op.
 
-(** One directory reached through two (overlapping) roots: same. *)
+(** the discovered sources are pairwise distinct under the key planPrune uses (hence as paths too) *)
+Theorem C34_discovered_sources_distinct : forall tree roots specs,
+  discover tree roots = Ok specs ->
+  NoDup (map (fun s => normalize_source (sp_source s)) specs) /\ NoDup (map sp_source specs).
+Proof. intros tree roots specs H. split; [exact (discover_ok_distinct_sources _ _ _ H)|exact (discover_ok_distinct_raw_sources _ _ _ H)]. Qed.
+Print Assumptions C34_discovered_sources_distinct.
+
+(** One directory reached through two (overlapping) roots, or a working tree and its own git directory: same. *)
 Theorem C34_any_source_collision_fails : forall tree roots l1 s1 l2 s2 l3,
   raw_discovered tree roots = l1 ++ s1 :: l2 ++ s2 :: l3 ->
-  sp_source s1 = sp_source s2 ->
+  normalize_source (sp_source s1) = normalize_source (sp_source s2) ->
   exists e, discover tree roots = Err e /\ (e = E_DUP_NAME \/ e = E_DUP_SOURCE \/ e = E_ROOT).
 Proof. exact any_source_collision_fails. Qed.
 Print Assumptions C34_any_source_collision_fails.
@@ -241,6 +250,19 @@ Example C34_nonvacuous_duplicate_same_root :
   (exists specs, discover (ex_twin_tree (ex_proj ++ dot_git ++ dot_git)) roots = Ok specs /\ length specs = 4) /\
   (exists specs, discover (ex_twin_tree (ex_proj ++ [50]%N ++ dot_git)) roots = Ok specs /\ length specs = 4).
 Proof. vm_compute. repeat split; try reflexivity; eexists; split; reflexivity. Qed.
+
+(** Non-vacuity (one source, two roots): r1/a is a working tree whose git directory r1/a/.git is itself a working
+    tree (it contains a .git entry); roots r1 and r1/a/.git report "a" <- /r1/a and ".git" <- /r1/a/.git, which planPrune
+    keys alike (/r1/a): E_DUP_SOURCE, only the lock ops.  (Before the repair both were accepted and every run pruned
+    and rebuilt the shard of ".git": `sync -f` never converged.) *)
+Example C34_nonvacuous_git_dir_is_same_source :
+  let tree := NDir [ ([114;49]%N, NDir [ ([97]%N, NDir [ (dot_git, NDir [ (dot_git, NDir []); (objects_s, NDir []) ]) ]) ]) ] in
+  let roots := [ [[114;49]%N]; [[114;49]%N; [97]%N; dot_git] ] in
+  map sp_source (raw_discovered tree roots) = [ [47;114;49;47;97]%N; [47;114;49;47;97;47;46;103;105;116]%N ] /\
+  map (fun s => normalize_source (sp_source s)) (raw_discovered tree roots) = [ [47;114;49;47;97]%N; [47;114;49;47;97]%N ] /\
+  discover tree roots = Err E_DUP_SOURCE /\
+  r_ops (run_sync Force tree ex_world roots ex_inv) = [OpMkdirAll; OpLockFile].
+Proof. vm_compute. repeat split; reflexivity. Qed.
 
 (** Non-vacuity (remove): selecting "a" by name removes both of its shards and nothing else. *)
 Example C34_nonvacuous_remove :
